@@ -262,6 +262,11 @@ func (s *session) afterRegister() {
 	})
 	close(s.configured)
 	if s.sc.AfterCfg == "drop" {
+		// As above: not before the stub has consumed what was sent so far.  A drop that follows the
+		// responses immediately can overtake the RegisterPlugin response inside the stub's multiplexer
+		// (a multiplexed conn's Read selects at random between "closed" and queued data), and then
+		// RegisterPlugin fails although it was answered (seen once in ~300 runs).
+		time.Sleep(50 * time.Millisecond)
 		s.cc.kill()
 		return
 	}
